@@ -13,8 +13,10 @@ RULE = ('decks (flat and with universes) extended by 1–3 LIKE n BUT cells over
         'parameter, keyword case variants; each deck is converted twice — as written and with every LIKE card expanded '
         'by the generator — and the two outputs must be identical except for the header; the Lean point monitor '
         'also checks the LIKE deck against the expanded abstract deck. Non-trivial = every deck (it has a LIKE card).')
-NOT_PROVED = ['the array form of FILL (ranges + universe list) is outside the keyword model: covered by the LIKE decks '
-              'of the `like` stream only']
+NOT_PROVED = ['the shorthands nI / xM / nJ / LOG inside a FILL array are outside the keyword model (plain numbers and nR are '
+              'in it): covered by the LIKE decks of the `like` stream only',
+              'the commutation of token reading with apply_but assumes that the options of cell n do not end inside an '
+              'array FILL whose ranges have no element (the code then drops every later token)']
 ASSUMPTIONS = []
 
 
